@@ -112,51 +112,73 @@ def identity_test_fns(fx):
 # --------------------------------------------------------------------------
 
 def alias_gate(fx):
-    """(b) every truncating open / rename of the destination that the drivers can reach is preceded by an
-    inode-identity test between source and destination whose 'same' outcome fails."""
+    """(b) every call that truncates, renames or removes what the destination path names, and that a worker role
+    can reach, is control-dependent on an inode-identity test between source and destination being false, and
+    the 'same' outcome fails.  Evaluated on the workers' inlined views, so the test may live in any helper."""
+    import views, p_role
     obs = []
     ids = identity_test_fns(fx)
-    reach = driver_reach(fx)
+    DESTR = {FILE_CREATE, RENAME, REMOVE_FILE, "std::fs::remove_dir", "std::fs::remove_dir_all",
+             "std::fs::OpenOptions::open", "std::fs::File::create_new"}
+    covered = set()
     sites = 0
-    for f in ro.fns_in_scope(fx, crates=("libxcp", "libfs")):
-        # calls that destroy or replace what the destination path names (creating calls -- symlink, mknod,
-        # mkdir -- fail with EEXIST on an existing entry and cannot harm it)
-        targets = q.calls_to(f, {FILE_CREATE, RENAME, REMOVE_FILE, "std::fs::remove_dir", "std::fs::remove_dir_all",
-                                 "std::fs::OpenOptions::open", "std::fs::File::create_new"})
-        if not targets:
-            continue
-        for n, (bi, t) in enumerate(targets):
+    R_ = p_role.roles(fx)
+    for lab, v in views.workers(fx):
+        n = 0
+        for bi, t in q.calls_to(v, DESTR):
+            sid = views.site(v, bi)
+            covered.add(sid[:3])
+            sites += 1
             nm = q.names(t)[0]
-            key = mkkey("R-ORDER", f.path, nm, n, "alias-gate")
-            if f.path not in reach:
-                o = Ob("R-ORDER", key, True, q.loc_of(t), f.path,
-                       "%s in %s is not reachable from either driver (out-of-graph instance, listed only)" % (nm, f.path),
-                       trivial=True)
-                obs.append(o)
+            key = mkkey("R-ORDER", lab, nm, n, "alias-gate")
+            n += 1
+            good = None
+            for idf in ids:
+                ok, w = q.gated(v, bi, "call", idf, False)
+                if ok:
+                    good = idf
+                    break
+            obs.append(Ob("R-ORDER", key, good is not None, q.loc_of(t), lab,
+                          "%s of the destination (%s) is %s" % (nm.split("::")[-1], q.loc_of(t),
+                                                                 ("control-dependent on %s(..) == false" % good) if good else
+                                                                 "not guarded by an inode-identity test (st_dev/st_ino of source vs destination)"),
+                          None if good else dict(identity_tests=sorted(ids), block="bb%d" % bi)))
+            if good:
+                for (u, v2) in ro.edge_target(v, "call", good, True):
+                    obs.append(ro.region_must_fail(fx, v, v2, "R-ORDER", mkkey("R-ORDER", lab, good, n, "same-file-fails"),
+                                                   "source == destination outcome", loc=q.loc_of(t)))
+    # the identity tests compare a source-side value with a destination-side value (roles, on the original functions)
+    k = 0
+    for f in ro.fns_in_scope(fx, crates=("libxcp",)):
+        for idf in ids:
+            for (cb, ct) in q.calls_to(f, idf):
+                rs = [R_.operand_role(f, a) for a in ct["args"]]
+                okr = p_role.SRC in rs and p_role.DST in rs
+                obs.append(Ob("R-ROLE", mkkey("R-ROLE", f.path, idf, k, "identity-args"), okr, q.loc_of(ct), f.path,
+                              "identity test compares a %s value with a %s value" % tuple((rs + ["?", "?"])[:2]),
+                              None if okr else dict(roles=rs)))
+                k += 1
+    # destructive calls reachable from the drivers but not part of any worker view (other roles, closures)
+    reach = driver_reach(fx)
+    m = 0
+    for f in ro.fns_in_scope(fx, crates=("libxcp", "libfs")):
+        for bi, t in q.calls_to(f, DESTR):
+            if (f.path, t["span"]["file"], t["span"]["line"]) in covered:
+                continue
+            nm = q.names(t)[0]
+            key = mkkey("R-ORDER", f.path, nm, m, "alias-gate")
+            m += 1
+            if f.path not in reach and f.root not in reach:
+                obs.append(Ob("R-ORDER", key, True, q.loc_of(t), f.path,
+                              "%s in %s is not reachable from either driver (out-of-graph instance, listed only)" % (nm, f.path),
+                              trivial=True))
                 continue
             sites += 1
             good, host, hostbi = _guarding_identity_test(fx, f, bi, ids, set())
-            why = "no inode-identity test (st_dev/st_ino comparison of source and destination) guards this call"
             obs.append(Ob("R-ORDER", key, good is not None, q.loc_of(t), f.path,
-                          "%s of the destination is %s" % (nm.split("::")[-1],
-                                                           ("control-dependent on %s(..) == false" % good) if good else why),
-                          None if good else dict(identity_tests=sorted(ids), block="bb%d" % bi)))
-            if good:
-                f = host     # the function in which the test guards the call (the caller, for a private helper)
-                # the 'same file' outcome must fail on every path
-                for (u, v) in ro.edge_target(f, "call", good, True):
-                    obs.append(ro.region_must_fail(fx, f, v, "R-ORDER",
-                                                   mkkey("R-ORDER", f.path, good, n, "same-file-fails"),
-                                                   "source == destination outcome", loc=q.loc_of(t)))
-                # the test's arguments: one side is the source, the other the destination (roles)
-                import p_role
-                R_ = p_role.roles(fx)
-                for (cb, ct) in q.calls_to(f, good):
-                    rs = [R_.operand_role(f, a) for a in ct["args"]]
-                    okr = p_role.SRC in rs and p_role.DST in rs
-                    obs.append(Ob("R-ROLE", mkkey("R-ROLE", f.path, good, n, "identity-args"), okr, q.loc_of(ct), f.path,
-                                  "identity test compares a %s value with a %s value" % tuple((rs + ["?", "?"])[:2]),
-                                  None if okr else dict(roles=rs)))
+                          "%s of the destination outside the workers' per-operation code is %s" % (
+                              nm.split("::")[-1], "guarded by %s" % good if good else "not guarded by an inode-identity test"),
+                          None if good else dict(block="bb%d" % bi)))
     if sites == 0:
         obs.append(anchor_ob("R-ORDER", "no truncating open of the destination reachable from the drivers"))
     return obs
@@ -189,12 +211,50 @@ def _guarding_identity_test(fx, f, bi, ids, seen):
 
 
 def destructive_confined(fx):
-    """(c) destructive primitives are called only from the tabled functions."""
+    """(c) destructive primitives occur only in their semantic context: the truncating open and the backup rename
+    in the Copy arm of a worker, removal of an existing entry in the Special arm, symlink creation in the Link arm,
+    directory creation in the walker's Dir arm, mknod/ftruncate inside libfs's copy_node/allocate_file."""
+    import views, p_kinds
     obs = []
-    for prim, allowed in sorted(DESTRUCTIVE.items()):
-        obs += ro.callers_within(fx, prim, allowed, "R-WHO", "destructive primitive confined")
-    obs.append(Ob("R-WHO", mkkey("R-WHO", "workspace", "destructive-scan", 0), True, "", "",
-                  "scanned all workspace call sites for %d destructive primitives" % len(DESTRUCTIVE)))
+    allowed = {}       # primitive -> set of (origin, file, line)
+    ARM = {FILE_CREATE: "Copy", RENAME: "Copy", REMOVE_FILE: "Special", SYMLINK: "Link"}
+    for lab, v in views.workers(fx):
+        f, regs = p_kinds.op_regions(fx, v)
+        for prim, arm in ARM.items():
+            for bi, t in q.calls_to(v, prim):
+                if bi in regs.get(arm, ()):
+                    allowed.setdefault(prim, set()).add(views.site(v, bi)[:3])
+    for wv in views.walker_views(fx):
+        sw = p_kinds.type_variant_switches(wv, p_kinds.FILETYPE)
+        if sw:
+            sb, m = sw[0]
+            if "Dir" in m:
+                region = edge_region(wv, sb, m["Dir"]) | {m["Dir"]}
+                for bi, t in q.calls_to(wv, CREATE_DIR_ALL):
+                    if bi in region:
+                        allowed.setdefault(CREATE_DIR_ALL, set()).add(views.site(wv, bi)[:3])
+    LIBFS_HOSTS = {MKNODAT: {"libfs::linux::copy_node"}, FTRUNCATE: {"libfs::common::allocate_file"},
+                   FILE_CREATE: {"libfs::common::copy_file"}}
+    n = 0
+    nsites = 0
+    for f in ro.fns_in_scope(fx, crates=("libxcp", "libfs", "xcp")):
+        for bi, t in f.calls():
+            if q.span_excluded(t["span"]):
+                continue
+            prim = q.names(t)[0]
+            if prim not in DESTRUCTIVE:
+                continue
+            nsites += 1
+            sid = (f.path, t["span"]["file"], t["span"]["line"])
+            ok = sid in allowed.get(prim, set()) or f.path in LIBFS_HOSTS.get(prim, set())
+            obs.append(Ob("R-WHO", mkkey("R-WHO", f.path, prim, n, "context"), ok, q.loc_of(t), f.path,
+                          "destructive primitive %s at %s %s" % (prim.split("::")[-1], q.loc_of(t),
+                                                                 "is in its allowed context" if ok else
+                                                                 "is NOT in its allowed context (%s)" % (ARM.get(prim) and "the %s arm of a worker" % ARM[prim] or "none")),
+                          None if ok else dict(callee=prim, function=f.path)))
+            n += 1
+    obs.append(Ob("R-WHO", mkkey("R-WHO", "workspace", "destructive-scan", 0), nsites >= 6, "", "",
+                  "scanned all workspace call sites for %d destructive primitives (%d sites)" % (len(DESTRUCTIVE), nsites)))
     return obs
 
 
@@ -229,72 +289,102 @@ def c03(ctx):
 # C08
 # --------------------------------------------------------------------------
 
+PROBES = LINK_FOLLOWING | LSTAT
+
+
+def _probe_origin(fx, f, local):
+    """Probe primitives (stat/lstat family) from whose result a boolean derives, through Option/Result
+    adaptors and inlined helpers; plus workspace probe helpers that were not inlined."""
+    atoms, fields, seen = Prov(f, table=PROBE_FLOW).origins(local)
+    prims = set()
+    for a in atoms:
+        if a.kind == "call":
+            if a.what in PROBES:
+                prims.add(a.what)
+            elif a.what in fx.fns:
+                r = q.callgraph(fx).reach(a.what)
+                prims |= set(x for x in PROBES if x in r)
+    return prims
+
+
+PROBE_FLOW = {
+    "core::option::Option::<T>::is_some": [0], "core::option::Option::<T>::is_none": [0],
+    "core::option::Option::<T>::is_some_and": [0], "core::result::Result::<T, E>::is_ok": [0],
+    "core::result::Result::<T, E>::is_err": [0], "core::option::Option::<T>::map": [0],
+    "core::option::Option::<T>::unwrap_or": [0], "core::option::Option::<T>::is_none_or": [0],
+    "std::fs::Metadata::is_dir": [0], "std::fs::Metadata::is_file": [0], "std::fs::Metadata::file_type": [0],
+    "std::fs::FileType::is_dir": [0],
+}
+
+
 def _exists_predicates(fx, f, region):
-    """Boolean gates inside `region` whose operand is the result of a call: [(switch bb, callee, true target)]"""
+    """Boolean gates inside `region` that test the result of a filesystem probe:
+    [(switch bb, set of probe primitives, true target, false target)]"""
     out = []
-    cfg = cfg_of(f)
     for bi in sorted(region):
         b = f.blocks[bi]
         t = b["term"]
         if t["k"] != "switch" or t.get("op_ty") != "bool":
             continue
+        l = op_local(t["op"])
+        if l is None:
+            continue
+        prims = _probe_origin(fx, f, l)
+        if not prims:
+            continue
+        flips = 0
         for r in q.switch_field_reads(f, bi):
             if r[0] == "call":
-                explicit = {int(v): tb for v, tb in t["targets"]}
-                true_t = t["otherwise"] if 0 in explicit else explicit.get(1)
-                false_t = explicit.get(0, t["otherwise"])
-                if r[2]:
-                    true_t, false_t = false_t, true_t
-                out.append((bi, r[1], true_t, false_t))
+                flips = r[2]
+        explicit = {int(v): tb for v, tb in t["targets"]}
+        true_t = t["otherwise"] if 0 in explicit else explicit.get(1)
+        false_t = explicit.get(0, t["otherwise"])
+        out.append((bi, prims, true_t, false_t))
     return out
 
 
-def _is_lstat_probe(fx, callee):
+def _is_lstat_probe(fx, prims):
     """The existence predicate must not follow a final symlink."""
-    cg = q.callgraph(fx)
-    if callee in fx.fns:
-        r = cg.reach(callee)
-        follows = sorted(x for x in LINK_FOLLOWING if x in r)
-        lst = sorted(x for x in LSTAT if x in r)
-        return (bool(lst) and not follows), "reaches %s" % (lst + follows)
-    if callee in LSTAT:
-        return True, callee
-    return False, "%s follows symlinks or is not a probe" % callee
+    if isinstance(prims, str):
+        prims = {prims}
+    follows = sorted(x for x in prims if x in LINK_FOLLOWING)
+    lst = sorted(x for x in prims if x in LSTAT)
+    return (bool(lst) and not follows), "derives from %s" % [x.split("::")[-1] for x in (lst + follows)]
 
 
 def walker_gate(fx):
-    """(a) in the walker: when no_clobber is set and the target exists (lstat), the walker fails before any
-    operation for that entry is queued or any directory is created; (b) the predicate is lstat-based."""
+    """(a) in the walker role: when no_clobber is set and the target exists (lstat), the walker fails before any
+    operation for that entry is queued or any directory is created; (b) the predicate is lstat-based.
+    Evaluated on the inlined view of the role that iterates the WalkDir."""
+    import views
     obs = []
-    f = fx.fn(WALKER)
+    f = views.walker_view(fx)
     if f is None:
-        return [anchor_ob("R-ORDER", WALKER)]
+        return [anchor_ob("R-ORDER", "a thread role that iterates a WalkDir")]
     cfg = cfg_of(f)
     te = ro.edge_target(f, CONFIG, "no_clobber", True)
     if not te:
-        return [anchor_ob("R-ORDER", "tree_walker has no branch on config.no_clobber")]
+        return [anchor_ob("R-ORDER", "the walker has no branch on config.no_clobber")]
     effects = ro.performers(fx, f, {CB_SEND, CREATE_DIR_ALL}, direct_only=True)
     eff_blocks = [b for b, t, h in effects if "Operation" in " ".join(t.get("arg_tys", [])) or
                   q.names(t)[0] == CREATE_DIR_ALL]
-    if len(eff_blocks) < 4:
-        obs.append(anchor_ob("R-ORDER", "walker effects (3 sends + create_dir_all) found %d" % len(eff_blocks)))
+    if len(eff_blocks) < 2:
+        obs.append(anchor_ob("R-ORDER", "walker effects (sends of Operation + create_dir_all) found %d" % len(eff_blocks)))
     found = False
     for (u, v) in te:
         region = edge_region(f, u, v)
-        for (sb, callee, true_t, false_t) in _exists_predicates(fx, f, region | {v}):
+        preds_here = _exists_predicates(fx, f, region | {v})
+        for k, (sb, prims, true_t, false_t) in enumerate(preds_here):
             found = True
-            okp, whyp = _is_lstat_probe(fx, callee)
-            obs.append(Ob("R-PROBE", mkkey("R-PROBE", WALKER, callee, 0, "clobber-gate-lstat"), okp,
+            okp, whyp = _is_lstat_probe(fx, prims)
+            obs.append(Ob("R-PROBE", mkkey("R-PROBE", WALKER, "exists-predicate", k, "clobber-gate-lstat"), okp,
                           q.loc_of(f.blocks[sb]["term"]), WALKER,
-                          "no-clobber existence predicate %s: %s" % (callee, whyp),
-                          None if okp else dict(predicate=callee)))
+                          "no-clobber existence predicate %s" % whyp, None if okp else dict(predicate=sorted(prims))))
             obs.append(ro.region_must_fail(fx, f, true_t, "R-ORDER",
-                                           mkkey("R-ORDER", WALKER, "no_clobber&&exists", 0, "must-fail"),
+                                           mkkey("R-ORDER", WALKER, "no_clobber&&exists", k, "must-fail"),
                                            "no_clobber && exists", forbidden_blocks=eff_blocks,
                                            loc=q.loc_of(f.blocks[sb]["term"])))
-            # and it sends an Error update (the run ends non-zero even for library clients)
-        # on the no_clobber branch no effect can be reached around the existence predicate
-        preds = [sb for (sb, callee, tt, ft) in _exists_predicates(fx, f, region | {v})]
+        preds = [sb for (sb, prims, tt, ft) in preds_here]
         for n, (bi, t, h) in enumerate(effects):
             if bi not in eff_blocks or not preds:
                 continue
@@ -303,7 +393,6 @@ def walker_gate(fx):
                           WALKER, "with no_clobber set, %s is reachable only through the existence test: %s" % (
                               q.names(t)[0].split("::")[-1], okp),
                           None if okp else dict(effect="bb%d" % bi, predicates=preds)))
-        # every effect is dominated by the no_clobber test
         for n, (bi, t, h) in enumerate(effects):
             if bi not in eff_blocks:
                 continue
@@ -313,49 +402,43 @@ def walker_gate(fx):
                                                                               "" if ok else "NOT "),
                           None if ok else dict(effect="bb%d" % bi, gate="bb%d" % u)))
     if not found:
-        obs.append(anchor_ob("R-ORDER", "no existence predicate on the no_clobber==true branch of tree_walker"))
+        obs.append(anchor_ob("R-ORDER", "no existence predicate on the no_clobber==true branch of the walker"))
     return obs
 
 
 def special_arm_gate(fx):
-    """(a') wherever an existing destination entry is removed to make room for a special node, the removal is
-    control-dependent on !no_clobber, the no_clobber branch fails, and the existence predicate is lstat-based.
-    Anchored on the functions that directly call remove_file and are reached from both drivers' Special arms
-    (so a shared helper is followed)."""
-    import p_kinds
+    """(a') wherever a worker removes an existing destination entry to make room for a special node, the removal
+    is control-dependent on !no_clobber, the no_clobber branch fails, and the existence predicate guarding it is
+    lstat-based.  Evaluated on the workers' inlined views (a shared helper is followed)."""
+    import views, p_kinds
     obs = []
-    cg = q.callgraph(fx)
-    hosts = {}
-    for w in (PF_WORKER, PB_DISPATCH):
-        f, regs = p_kinds.op_regions(fx, w)
-        if f is None or "Special" not in regs:
-            obs.append(anchor_ob("R-ORDER", "%s Special arm" % w))
+    WS = views.workers(fx)
+    if len(WS) < 2:
+        obs.append(anchor_ob("R-ORDER", "two worker roles (found %d)" % len(WS)))
+    for lab, f in WS:
+        fv, regs = p_kinds.op_regions(fx, f)
+        if "Special" not in regs:
+            obs.append(anchor_ob("R-ORDER", "%s Special arm" % lab))
             continue
-        r = cg.reach(f.path, blocks=regs["Special"])
-        if REMOVE_FILE not in r:
-            obs.append(anchor_ob("R-ORDER", "%s Special arm reaches remove_file" % w))
-            continue
-        host = r[REMOVE_FILE][-2]    # the workspace function that calls it
-        hosts.setdefault(host, []).append(w)
-    for host, ws in sorted(hosts.items()):
-        f = fx.fn(host)
-        rms = ro.performers(fx, f, REMOVE_FILE, direct_only=True)
-        for n, (bi, t, h) in enumerate(rms):
+        rms = [(bi, t) for bi, t in q.calls_to(f, REMOVE_FILE) if bi in regs["Special"]]
+        if not rms:
+            obs.append(anchor_ob("R-ORDER", "%s Special arm performs remove_file" % lab))
+        for n, (bi, t) in enumerate(rms):
             ok, why = q.gated(f, bi, CONFIG, "no_clobber", False)
-            obs.append(Ob("R-ORDER", mkkey("R-ORDER", host, REMOVE_FILE, n, "gated:no_clobber=False"), ok, q.loc_of(t), host,
-                          "remove_file of an existing destination entry (%s): %s" % ("+".join(x.split("::")[-1] for x in ws), why),
-                          None if ok else dict(block="bb%d" % bi)))
-            preds = [r_ for r_ in _gates_of_block(f, bi) if r_[0] == "call"]
-            okp = False
-            whyp = "no existence predicate guards remove_file"
-            for r_ in preds:
-                okp, whyp = _is_lstat_probe(fx, r_[1])
-                if okp:
-                    break
-            obs.append(Ob("R-PROBE", mkkey("R-PROBE", host, REMOVE_FILE, n, "clobber-gate-lstat"), okp, q.loc_of(t), host,
-                          "existence predicate before remove_file: %s" % whyp, None if okp else dict(preds=[p_[:3] for p_ in preds])))
-        for k, (u, v) in enumerate(ro.edge_target(f, CONFIG, "no_clobber", True)):
-            obs.append(ro.region_must_fail(fx, f, v, "R-ORDER", mkkey("R-ORDER", host, "no_clobber", k, "must-fail"),
+            obs.append(Ob("R-ORDER", mkkey("R-ORDER", lab, REMOVE_FILE, n, "gated:no_clobber=False"), ok, q.loc_of(t), lab,
+                          "remove_file of an existing destination entry: %s" % why, None if ok else dict(block="bb%d" % bi)))
+            # existence predicates this removal is control-dependent on (true polarity)
+            cfg = cfg_of(f)
+            okp, whyp = False, "no existence predicate guards remove_file"
+            for (sb, prims, true_t, false_t) in _exists_predicates(fx, f, regs["Special"]):
+                if bi not in cfg.reach([0], blocked_edges=[(sb, true_t)]):
+                    okp, whyp = _is_lstat_probe(fx, prims)
+                    if okp:
+                        break
+            obs.append(Ob("R-PROBE", mkkey("R-PROBE", lab, REMOVE_FILE, n, "clobber-gate-lstat"), okp, q.loc_of(t), lab,
+                          "existence predicate before remove_file: %s" % whyp))
+        for k, (u, v) in enumerate([e for e in ro.edge_target(f, CONFIG, "no_clobber", True) if e[0] in regs["Special"]]):
+            obs.append(ro.region_must_fail(fx, f, v, "R-ORDER", mkkey("R-ORDER", lab, "no_clobber", k, "must-fail"),
                                            "special file onto existing entry with no_clobber",
                                            loc=q.loc_of(f.blocks[u]["term"])))
     return obs
@@ -379,23 +462,27 @@ def _gates_of_block(f, bi):
 
 
 def force_conflict(fx):
-    """(d) --no-clobber with --force is rejected before the copy starts."""
+    """(d) --no-clobber with --force is rejected before the copy starts (on main's inlined view, so the check may
+    live in any helper or method of the options type)."""
+    import views
     obs = []
-    oc = fx.fn("xcp::opts_check")
-    m = fx.fn(MAIN)
-    if oc is None or m is None:
-        return [anchor_ob("R-ORDER", "xcp::opts_check / xcp::main")]
-    nc = ro.edge_target(oc, OPTS, "no_clobber", True)
-    fr = ro.edge_target(oc, OPTS, "force", True)
-    both = [(u, v) for (u, v) in fr if any(u in edge_region(oc, a, b) | {b} for (a, b) in nc)] or \
-           [(u, v) for (u, v) in nc if any(u in edge_region(oc, a, b) | {b} for (a, b) in fr)]
+    m = views.main_view(fx)
+    if m is None:
+        return [anchor_ob("R-ORDER", "xcp::main")]
+    cfg = cfg_of(m)
+    nc = ro.edge_target(m, OPTS, "no_clobber", True)
+    fr = ro.edge_target(m, OPTS, "force", True)
+    both = [(u, v) for (u, v) in fr if any(u in edge_region(m, a, b) | {b} for (a, b) in nc)] or \
+           [(u, v) for (u, v) in nc if any(u in edge_region(m, a, b) | {b} for (a, b) in fr)]
     if not both:
-        obs.append(anchor_ob("R-ORDER", "opts_check: no branch on no_clobber && force"))
+        obs.append(anchor_ob("R-ORDER", "main: no branch on no_clobber && force"))
+    sp = [bi for bi, t in q.calls_to(m, {SPAWN})]
     for k, (u, v) in enumerate(both):
-        obs.append(ro.region_must_fail(fx, oc, v, "R-ORDER", mkkey("R-ORDER", oc.path, "no_clobber&&force", k, "must-fail"),
-                                       "no_clobber && force", loc=q.loc_of(oc.blocks[u]["term"])))
-    obs += ro.must_precede(fx, {"xcp::opts_check"}, {SPAWN, LOAD_DRIVER}, "R-ORDER",
-                           "option conflicts are checked before the copy starts", crates=("xcp",))
+        obs.append(ro.region_must_fail(fx, m, v, "R-ORDER", mkkey("R-ORDER", MAIN, "no_clobber&&force", k, "must-fail"),
+                                       "no_clobber && force", loc=q.loc_of(m.blocks[u]["term"])))
+        ok = bool(sp) and all(any(cfg.dominates(a, s_) for (a, b) in nc + fr) for s_ in sp)
+        obs.append(Ob("R-ORDER", mkkey("R-ORDER", MAIN, "no_clobber&&force", k, "before-copy"), ok,
+                      q.loc_of(m.blocks[u]["term"]), MAIN, "the option conflict is tested before the copy starts: %s" % ok))
     return obs
 
 
@@ -412,50 +499,52 @@ def c08(ctx):
 # --------------------------------------------------------------------------
 
 def backup_rename(fx):
+    """(a),(d) on the workers' inlined views: the rename of the old destination is control-dependent on the backup
+    decision, its target is the computed backup name of the very path being renamed, it precedes the truncating
+    open whenever a backup is needed, and nothing else (copy, remove) touches the old file."""
+    import views
     obs = []
-    reach = driver_reach(fx)
+    NB = views.backup_mode_fn(fx)
+    if NB is None:
+        return [anchor_ob("R-ORDER", "a function that branches on config.backup")]
     n = 0
-    for f in ro.fns_in_scope(fx, crates=("libxcp",)):
+    for lab, f in views.workers(fx):
         rn = q.calls_to(f, RENAME)
         if not rn:
             continue
         cfg = cfg_of(f)
-        creates = [b for b, t, h in ro.performers(fx, f, {FILE_CREATE, "std::fs::OpenOptions::open"})]
+        creates = [b for b, t in q.calls_to(f, {FILE_CREATE, "std::fs::OpenOptions::open"})]
         for (bi, t) in rn:
             n += 1
-            # (d) control-dependent on needs_backup
-            ok, why = q.gated(f, bi, "call", "libxcp::backup::needs_backup", True)
-            obs.append(Ob("R-ORDER", mkkey("R-ORDER", f.path, RENAME, 0, "gated:needs_backup"), ok, q.loc_of(t), f.path,
-                          "backup rename: %s" % why, None if ok else dict(block="bb%d" % bi)))
-            # (a) new name comes from get_backup_path(to); old name is the destination parameter
-            calls, atoms, fields = q.arg_origin_calls(f, t, 1)
-            okn = "libxcp::backup::get_backup_path" in calls
-            obs.append(Ob("R-TABLE", mkkey("R-TABLE", f.path, RENAME, 0, "backup-name"), okn, q.loc_of(t), f.path,
-                          "rename target derives from %s" % sorted(calls), None if okn else dict(calls=sorted(calls))))
-            c0, a0, f0 = q.arg_origin_calls(f, t, 0)
-            c1 = set()
-            for (gb, gt) in q.calls_to(f, "libxcp::backup::get_backup_path"):
-                cc, aa, ff = q.arg_origin_calls(f, gt, 0)
-                c1 |= set((a.kind, a.what) for a in aa if a.kind == "arg")
-            same = set((a.kind, a.what) for a in a0 if a.kind == "arg") & c1
-            obs.append(Ob("R-ROLE", mkkey("R-ROLE", f.path, RENAME, 0, "backup-of-dest"), bool(same), q.loc_of(t), f.path,
-                          "the renamed file and the file whose backup name is computed are the same parameter: %s" % sorted(same),
-                          None if same else dict(rename_from=[repr(a) for a in a0])))
-            # (a) on the needs_backup branch the rename precedes the truncating open
-            for (u, v) in ro.edge_target(f, "call", "libxcp::backup::needs_backup", True):
-                # ... and no (re)creation can happen before the backup decision has been taken
-                okp = cfg.passes_through([bi], v, creates) and bool(creates) and \
+            ok, why = q.gated(f, bi, "call", NB, True)
+            obs.append(Ob("R-ORDER", mkkey("R-ORDER", lab, RENAME, 0, "gated:needs_backup"), ok, q.loc_of(t), lab,
+                          "backup rename: %s" % why.replace("call." + NB, "the backup decision"), None if ok else dict(block="bb%d" % bi)))
+            # the new name is computed from the path that is renamed, by the backup-name logic
+            c1, a1, f1 = q.arg_origin_calls(f, t, 1, table=BACKUP_FLOW)
+            c0, a0, f0 = q.arg_origin_calls(f, t, 0, table=BACKUP_FLOW)
+            src0 = set(a.key()[:2] for a in a0 if a.kind in ("arg", "call"))
+            src1 = set(a.key()[:2] for a in a1 if a.kind in ("arg", "call"))
+            # same path plus something (the numbered suffix); which number is chosen is the numeric-order rule
+            okn = bool(src0) and src0 <= src1 and bool(c1 - c0)
+            obs.append(Ob("R-TABLE", mkkey("R-TABLE", lab, RENAME, 0, "backup-name"), okn, q.loc_of(t), lab,
+                          "rename target is computed from the renamed path by the backup-name logic: %s" % sorted(x.split("::")[-1] for x in c1),
+                          None if okn else dict(target_from=sorted(c1), renamed_from=sorted(map(str, src0)))))
+            import p_kinds
+            barriers = [sb_ for sb_, m_ in p_kinds.type_variant_switches(f, OPERATION)]
+            for (u, v) in ro.edge_target(f, "call", NB, True):
+                okp = cfg.passes_through([bi], v, creates, barriers=barriers) and bool(creates) and \
                     all(cfg.dominates(u, c) for c in creates)
-                obs.append(Ob("R-ORDER", mkkey("R-ORDER", f.path, RENAME, 0, "before-create"), okp, q.loc_of(t), f.path,
+                obs.append(Ob("R-ORDER", mkkey("R-ORDER", lab, RENAME, 0, "before-create"), okp, q.loc_of(t), lab,
                               "when a backup is needed the old file is renamed before the destination is (re)created: %s" % okp,
                               None if okp else dict(rename="bb%d" % bi, creates=creates)))
-            # the old file is preserved by rename only: no copy/remove of the destination in this function
-            bad = ro.performers(fx, f, {REMOVE_FILE, "std::fs::copy", "std::fs::write"})
-            obs.append(Ob("R-WHO", mkkey("R-WHO", f.path, "rename-only", 0), not bad, f.loc(), f.path,
+            import p_kinds
+            fv, regs = p_kinds.op_regions(fx, f)
+            bad = [(b_, t_) for b_, t_ in q.calls_to(f, {REMOVE_FILE, "std::fs::copy", "std::fs::write"}) if b_ in regs.get("Copy", ())]
+            obs.append(Ob("R-WHO", mkkey("R-WHO", lab, "rename-only", 0), not bad, q.loc_of(t), lab,
                           "old destination preserved by atomic rename only (no copy+delete): %s" % (not bad),
                           dict(found=[q.loc_of(x[1]) for x in bad]) if bad else None))
     if n == 0:
-        obs.append(anchor_ob("R-ORDER", "no std::fs::rename in libxcp"))
+        obs.append(anchor_ob("R-ORDER", "no std::fs::rename in any worker role"))
     return obs
 
 
@@ -490,6 +579,8 @@ def backup_names_exact(fx):
 BACKUP_FLOW = {
     "core::option::Option::<T>::ok_or": [0],
     "std::path::Path::new": [0],
+    "std::path::Path::to_path_buf": [0], "std::path::PathBuf::into_os_string": [0], "std::path::Path::as_os_str": [0],
+    "core::ops::try_trait::Try::branch": [0],
 }
 
 
@@ -537,11 +628,20 @@ def c09(ctx):
 # C13
 # --------------------------------------------------------------------------
 
+PATH_FLOW = {
+    "std::path::Path::to_path_buf": [0],
+    "walkdir::dent::DirEntry::into_path": [0],
+    "std::path::Path::symlink_metadata": [0], "std::path::Path::metadata": [0], "std::fs::symlink_metadata": [0],
+    "std::fs::Metadata::file_type": [0], "core::convert::From::from": [0],
+}
+
+
 def dereference_rules(fx):
+    import views
     obs = []
-    f = fx.fn(WALKER)
+    f = views.walker_view(fx)
     if f is None:
-        return [anchor_ob("R-TABLE", WALKER)]
+        return [anchor_ob("R-TABLE", "a thread role that iterates a WalkDir")]
     FOLLOW = "walkdir::WalkDir::follow_links"
     fl = q.calls_to(f, FOLLOW)
     ok = False
@@ -557,39 +657,35 @@ def dereference_rules(fx):
             wit = dict(origins=[repr(a) for a in atoms], fields=sorted(map(str, fields)))
     obs.append(Ob("R-TABLE", mkkey("R-TABLE", WALKER, FOLLOW, 0, "deref"), ok,
                   q.loc_of(fl[0][1]) if fl else f.loc(), WALKER, why, wit))
-    # the walked iterator is the one built from that chain: into_iter receiver derives from follow_links result
-    # canonicalize on the dereference branch
     cn = q.calls_to(f, "std::fs::canonicalize")
     if not cn:
-        obs.append(anchor_ob("R-ORDER", "tree_walker calls canonicalize"))
+        obs.append(anchor_ob("R-ORDER", "the walker calls canonicalize"))
     for n, (bi, t) in enumerate(cn):
         okg, whyg = q.gated(f, bi, CONFIG, "dereference", True)
         obs.append(Ob("R-ORDER", mkkey("R-ORDER", WALKER, "std::fs::canonicalize", n, "gated:dereference=True"), okg,
                       q.loc_of(t), WALKER, "canonicalize: %s" % whyg, None if okg else dict(block="bb%d" % bi)))
-    # dispatch metadata is taken from the dereferenced path
-    sm = q.calls_to(f, {"std::path::Path::symlink_metadata", "std::fs::symlink_metadata", "std::path::Path::metadata"})
+    # the kind dispatch uses metadata of the dereferenced path: the FileType switched on derives from canonicalize
+    import p_kinds
     hit = False
-    for n, (bi, t) in enumerate(sm):
-        calls, atoms, fields = q.arg_origin_calls(f, t, 0, table=PATH_FLOW)
-        if "std::fs::canonicalize" in calls:
-            hit = True
+    sw = p_kinds.type_variant_switches(f, p_kinds.FILETYPE)
+    for bi, b in enumerate(f.blocks):
+        for s_ in b["stmts"]:
+            rv = s_["rv"]
+            if rv["k"] == "discr" and rv.get("adt") == p_kinds.FILETYPE:
+                atoms, fields, seen = Prov(f, table=PATH_FLOW).origins(rv["pl"]["l"])
+                if any(a.kind == "call" and a.what == "std::fs::canonicalize" for a in atoms):
+                    hit = True
     obs.append(Ob("R-TABLE", mkkey("R-TABLE", WALKER, "dispatch-metadata", 0, "from-canonical"), hit, f.loc(), WALKER,
-                  "the metadata the kind dispatch uses derives from the canonicalised path: %s" % hit,
+                  "the kind the dispatch switches on derives from the canonicalised path: %s" % hit,
                   None if hit else dict(note="dispatching on the link's own metadata would copy links as links under -L")))
     return obs
-
-
-PATH_FLOW = {
-    "std::path::Path::to_path_buf": [0],
-    "walkdir::dent::DirEntry::into_path": [0],
-}
 
 
 def c13(ctx):
     fx = ctx.fx("A")
     ctx.add(dereference_rules(fx))
-    ctx.add([o for o in r_err.run(fx, crates=("libxcp",)) if o.fn == WALKER and
-             ("canonicalize" in o.key or "Iterator::next" in o.key or "symlink_metadata" in o.key)])
+    ctx.add([o for o in r_err.run(fx, crates=("libxcp",)) if
+             ("canonicalize" in o.key or ("Iterator::next" in o.key and "walk" in o.what.lower() + o.fn.lower()) or "symlink_metadata" in o.key)])
 
 
 # --------------------------------------------------------------------------
